@@ -16,7 +16,7 @@ COMMON = ["-std=c++17", "-DNDEBUG", "-DASMJIT_STATIC", "-DASMJIT_VERIF", "-fno-t
 VARIANTS = {
     # sanitizer is part of the oracle
     "asan": dict(cxx="clang++", flags=["-O1", "-g", "-fno-omit-frame-pointer",
-                                       "-fsanitize=address,undefined", "-fno-sanitize=vptr,function",
+                                       "-fsanitize=address,undefined", "-fno-sanitize=vptr,function,nonnull-attribute",
                                        "-fno-sanitize-recover=undefined"],
                  ld=["-fsanitize=address,undefined"]),
     # bulk sweeps
